@@ -339,7 +339,7 @@ mod toplevel_parser {
 
   pub(super) fn parse_class(
     parser: &mut super::SourceParser,
-    (mut loc, private, mut associated_comments): (Location, bool, Vec<Comment>),
+    (mut loc, private, associated_comments): (Location, bool, Vec<Comment>),
   ) -> ClassDefinition<()> {
     let name = parser.parse_upper_id();
     loc = loc.union(&name.loc);
@@ -375,9 +375,8 @@ mod toplevel_parser {
       }
     };
     let mut members = Vec::new();
-    let (members_start_loc, mut additional_associated_comments) =
+    let (members_start_loc, body_start_comments) =
       parser.assert_and_consume_operator(TokenOp::LeftBrace);
-    associated_comments.append(&mut additional_associated_comments);
     while let TokenContent::Keyword(Keyword::Function | Keyword::Method | Keyword::Private) =
       parser.peek().1
     {
@@ -385,8 +384,22 @@ mod toplevel_parser {
       members.push(parse_class_member_definition(parser));
       parser.available_tparams = saved_upper_type_parameters;
     }
-    let (end_loc, ending_associated_comments) =
+    let (end_loc, mut ending_associated_comments) =
       parser.assert_and_consume_operator(TokenOp::RightBrace);
+    // The comments before `{` stay where the body starts: in front of the first member, or of the
+    // closing brace when there is none.
+    if let Some(first_member) = members.first_mut() {
+      first_member.decl.associated_comments =
+        super::utils::mod_associated_comments_with_additional_preceding_comments(
+          parser,
+          first_member.decl.associated_comments,
+          body_start_comments,
+        );
+    } else {
+      let mut comments = body_start_comments;
+      comments.append(&mut ending_associated_comments);
+      ending_associated_comments = comments;
+    }
     let ending_associated_comments =
       parser.comments_store.create_comment_reference(ending_associated_comments);
     loc = loc.union(&end_loc);
@@ -408,16 +421,15 @@ mod toplevel_parser {
 
   pub(super) fn parse_interface(
     parser: &mut super::SourceParser,
-    (mut loc, private, mut associated_comments): (Location, bool, Vec<Comment>),
+    (mut loc, private, associated_comments): (Location, bool, Vec<Comment>),
   ) -> InterfaceDeclaration {
     let name = parser.parse_upper_id();
     parser.available_tparams = HashSet::new();
     let type_parameters = super::type_parser::parse_type_parameters(parser);
     let extends_or_implements_nodes = parse_extends_or_implements_nodes(parser);
     let mut members = Vec::new();
-    let (members_start_loc, mut additional_associated_comments) =
+    let (members_start_loc, body_start_comments) =
       parser.assert_and_consume_operator(TokenOp::LeftBrace);
-    associated_comments.append(&mut additional_associated_comments);
     while let TokenContent::Keyword(Keyword::Function | Keyword::Method | Keyword::Private) =
       parser.peek().1
     {
@@ -425,8 +437,20 @@ mod toplevel_parser {
       members.push(parse_class_member_declaration(parser));
       parser.available_tparams = saved_upper_type_parameters;
     }
-    let (end_loc, ending_associated_comments) =
+    let (end_loc, mut ending_associated_comments) =
       parser.assert_and_consume_operator(TokenOp::RightBrace);
+    if let Some(first_member) = members.first_mut() {
+      first_member.associated_comments =
+        super::utils::mod_associated_comments_with_additional_preceding_comments(
+          parser,
+          first_member.associated_comments,
+          body_start_comments,
+        );
+    } else {
+      let mut comments = body_start_comments;
+      comments.append(&mut ending_associated_comments);
+      ending_associated_comments = comments;
+    }
     let ending_associated_comments =
       parser.comments_store.create_comment_reference(ending_associated_comments);
     loc = loc.union(&end_loc);
